@@ -18,7 +18,7 @@ import time
 VERIF = os.path.dirname(os.path.dirname(os.path.abspath(__file__)))
 REPO = os.environ.get('VERIF_REPO', '/repo')
 SPEC = os.path.join(VERIF, 'spec')
-NPROC = min(16, os.cpu_count() or 1)
+NPROC = min(int(os.environ.get('VERIF_WORKERS', '16')), os.cpu_count() or 1)
 TLA_JAR = '/opt/veriftools/tla/tla2tools.jar:/opt/veriftools/tla/CommunityModules-deps.jar'
 
 
